@@ -106,11 +106,27 @@ def plan(tier, seed):
     return [{"kind": "assign", "n_assign": n_assign, "part": i, "parts": shards, "per": 40 if tier == "quick" else 80} for i in range(shards)]
 
 
-def make_env(tokens):
+_INST = []
+
+
+def make_env(tokens, style="subclass"):
+    """style "subclass": one subclass per assignment (the documented route).  style "instance": ONE shared class whose
+    constructor takes the spellings and sets them on the instance before the base class builds its lexer - so that
+    several environments of the same class carry different spellings in one process."""
     import jsonpath
 
     ns = {ATTRS[k]: v for k, v in tokens.items()}
-    return type("TokEnv", (jsonpath.JSONPathEnvironment,), ns)()
+    if style == "subclass":
+        return type("TokEnv", (jsonpath.JSONPathEnvironment,), ns)()
+    if not _INST:
+        class InstEnv(jsonpath.JSONPathEnvironment):
+            def __init__(self, **spellings):
+                for name, sp in spellings.items():
+                    setattr(self, name, sp)
+                super().__init__()
+        _INST.append(InstEnv)
+        _INST.append(InstEnv(**{ATTRS[k]: v for k, v in DEFAULT_TOKENS.items()}))   # the first of its class: default spellings
+    return _INST[0](**ns)
 
 
 def gen_compound(r):
@@ -152,12 +168,14 @@ def norm_parts(res, keys_tok):
     return ("ok", out)
 
 
-def check_case(ctx, tokens, comp, doc, texts=None):
+def check_case(ctx, tokens, comp, doc, texts=None, style=None):
     import jsonpath
 
     r = ctx.rng
     ctx.evaluation()
-    env = make_env(tokens)
+    style = style or ("instance" if r.random() < 0.3 else "subclass")
+    env = make_env(tokens, style)
+    ctx.cell("environment_construction", style)
     seed = r.random()
     import random
 
@@ -165,7 +183,7 @@ def check_case(ctx, tokens, comp, doc, texts=None):
     t_cus = Renderer(random.Random(seed), blanks=0.15, tokens=tokens).compound(comp)
     if texts:
         t_def, t_cus = texts
-    case = {"tokens": tokens, "comp": comp, "doc": doc, "t_def": t_def, "t_cus": t_cus}
+    case = {"tokens": tokens, "comp": comp, "doc": doc, "t_def": t_def, "t_cus": t_cus, "style": style}
     base = results(jsonpath.DEFAULT_ENV, t_def, doc)
     got = results(env, t_cus, doc)
     renamed = ",".join(sorted(k for k in IDENTS if tokens[k] != DEFAULT_TOKENS[k]))
@@ -211,7 +229,7 @@ def check_case(ctx, tokens, comp, doc, texts=None):
         ctx.violation("string-form-not-fixed-point-under-renamed-tokens", case, {"tokens": tokens, "str": s.value, "str2": str(c2.value)})
         return
     ctx.count("printed_and_recompiled")
-    ctx.remember("renamed-tokens", lambda: (repr(results(make_env(tokens), t_cus, doc)), str(make_env(tokens).compile(t_cus))))
+    ctx.remember("renamed-tokens", lambda: (repr(results(make_env(tokens, style), t_cus, doc)), str(make_env(tokens, style).compile(t_cus))))
     if len(ctx.samples) < 3 or r.random() < 0.005:
         ctx.sample({"tokens": tokens, "custom_text": t_cus, "default_text": t_def, "str": s.value, "matches": len(base[1])})
 
@@ -252,4 +270,4 @@ def finalize(m, tier):
 
 
 def replay(case, ctx):
-    check_case(ctx, case["tokens"], case["comp"], case["doc"], texts=(case["t_def"], case["t_cus"]))
+    check_case(ctx, case["tokens"], case["comp"], case["doc"], texts=(case["t_def"], case["t_cus"]), style=case.get("style"))
